@@ -104,7 +104,7 @@ struct FlatSetEngine : EngineBase {
   }
 
   E *hold = nullptr;
-  E *make_hold(Val v) { MonScope m; hold = new E(v.key, v.pay); return hold; }
+  E *make_hold(Val v) { MonScope m; hold = new E(Mk<E>::make(v)); return hold; }
   void drop_hold() { MonScope m; delete hold; hold = nullptr; }
 
   template <class X> static void adopt(const X &) {}
@@ -116,11 +116,11 @@ struct FlatSetEngine : EngineBase {
   void with_il(const std::vector<Val> &vals, F &&f) {
     switch (vals.size()) {
       case 0: { std::initializer_list<E> il = {}; f(il); break; }
-      case 1: { g_monitor_depth++; std::initializer_list<E> il = {E(vals[0].key, vals[0].pay)}; g_monitor_depth--; f(il); g_monitor_depth++; }
+      case 1: { g_monitor_depth++; std::initializer_list<E> il = {Mk<E>::make(vals[0])}; g_monitor_depth--; f(il); g_monitor_depth++; }
         g_monitor_depth--; break;
-      case 2: { g_monitor_depth++; std::initializer_list<E> il = {E(vals[0].key, vals[0].pay), E(vals[1].key, vals[1].pay)}; g_monitor_depth--; f(il); g_monitor_depth++; }
+      case 2: { g_monitor_depth++; std::initializer_list<E> il = {Mk<E>::make(vals[0]), Mk<E>::make(vals[1])}; g_monitor_depth--; f(il); g_monitor_depth++; }
         g_monitor_depth--; break;
-      default: { g_monitor_depth++; std::initializer_list<E> il = {E(vals[0].key, vals[0].pay), E(vals[1].key, vals[1].pay), E(vals[2].key, vals[2].pay)}; g_monitor_depth--; f(il); g_monitor_depth++; }
+      default: { g_monitor_depth++; std::initializer_list<E> il = {Mk<E>::make(vals[0]), Mk<E>::make(vals[1]), Mk<E>::make(vals[2])}; g_monitor_depth--; f(il); g_monitor_depth++; }
         g_monitor_depth--; break;
     }
   }
@@ -176,7 +176,7 @@ struct FlatSetEngine : EngineBase {
         set_op(form == 2 ? "insert(hint,const&)" : form == 3 ? "insert(hint,&&)" : "emplace_hint", st(a), ac + "," + hc, fmt("S%d hint=%zu %d.%u", a, h, x.key, x.pay));
         size_t before = m.size();
         if (form == 5) {
-          window([&] { got = idx(s, s.emplace_hint(s.begin() + h, x.key, x.pay)); });
+          window([&] { got = idx(s, Emp<VecT>::hint(s, s.begin() + h, x)); });
         } else {
           E *e = make_hold(x);
           if (form == 2) window([&] { got = idx(s, s.insert(s.begin() + h, *e)); });
@@ -189,7 +189,7 @@ struct FlatSetEngine : EngineBase {
       }
       case 4: {
         set_op("emplace", st(a), ac, fmt("S%d %d.%u", a, x.key, x.pay));
-        window([&] { auto r = s.emplace(x.key, x.pay); got = idx(s, r.first); ins = r.second; });
+        window([&] { auto r = Emp<VecT>::set(s, x); got = idx(s, r.first); ins = r.second; });
         break;
       }
       case 6: {  // range / il
@@ -478,7 +478,7 @@ struct FlatSetEngine : EngineBase {
       bool okc = true;
       E *e1 = make_hold(EI<E>::norm(Val(3, 1)));
       E *e2;
-      { MonScope mm; e2 = new E(7, 2); }
+      { MonScope mm; e2 = new E(Mk<E>::make(EI<E>::norm(Val(7, 2)))); }
       bool kc = false, vc = false, want = false;
       window([&] {
         kc = s.key_comp()(*e1, *e2);
@@ -718,7 +718,7 @@ struct FlatSetEngine : EngineBase {
       TM->clear();
     } else {
       set_op("T:emplace", szcls(TM->size()), "-", fmt("%d.%u", x.key, x.pay));
-      window([&] { T->emplace(x.key, x.pay); });
+      window([&] { Emp<VecT>::set(*T, x); });
       MonScope mm;
       TM->insert(x);
     }
